@@ -142,6 +142,7 @@ func (w *TimerWork) Exec(x *Exec) {
 		}
 		x.Spawn(fmt.Sprintf("client%d", ti), func() {
 			var tm *time.Timer
+			tms := map[int]*time.Timer{}
 			for j, o := range w.Tasks[ti] {
 				r := &recs[ti][j]
 				if d := o.At - x.S.Now(); o.At > 0 && d > 0 {
@@ -159,9 +160,14 @@ func (w *TimerWork) Exec(x *Exec) {
 				switch o.Op {
 				case "delay":
 					tm = gogu.Delay(wait, body)
+					tms[id] = tm
 				case "stop":
-					if tm != nil {
-						r.Bool = tm.Stop()
+					target := tm // ID 0: the most recent Delay
+					if id != 0 {
+						target = tms[id]
+					}
+					if target != nil {
+						r.Bool = target.Stop()
 					}
 				case "dcall":
 					dcall(body)
@@ -271,11 +277,21 @@ func (w *TimerWork) Post(out *RunOut) {
 	exact := 0
 	switch w.Kind {
 	case "delay":
-		var stop *topRec
+		nDelays := 0
 		for i := range h.Ops {
-			if h.Ops[i].Op == "stop" && h.Ops[i].Done {
-				stop = &h.Ops[i]
+			if h.Ops[i].Op == "delay" {
+				nDelays++
 			}
+		}
+		// the Stop calls made on the timer a given Delay returned
+		stopsOf := func(id int) []*topRec {
+			var l []*topRec
+			for i := range h.Ops {
+				if h.Ops[i].Op == "stop" && h.Ops[i].Done && (h.Ops[i].ID == id || (h.Ops[i].ID == 0 && nDelays == 1)) {
+					l = append(l, &h.Ops[i])
+				}
+			}
+			return l
 		}
 		for i := range h.Ops {
 			o := &h.Ops[i]
@@ -284,29 +300,35 @@ func (w *TimerWork) Post(out *RunOut) {
 			}
 			rs := runsOf(o.ID)
 			if len(rs) > 1 {
-				fail("ran-twice", "the delayed function ran %d times", len(rs))
+				fail("ran-twice", "the function of delay #%d ran %d times", o.ID, len(rs))
 				return
 			}
 			for _, r := range rs {
 				exact++
 				if r.T < o.TI+w.WaitNs {
-					fail("early", "the delayed function ran at %s, sooner than the wait %s after the call at %s", time.Duration(r.T), time.Duration(w.WaitNs), time.Duration(o.TI))
+					fail("early", "the function of delay #%d ran at %s, sooner than the wait %s after the call at %s", o.ID, time.Duration(r.T), time.Duration(w.WaitNs), time.Duration(o.TI))
 					return
 				}
 			}
-			if stop != nil && stop.Bool && len(rs) > 0 {
-				fail("ran-after-stop", "Timer.Stop returned true at %s but the delayed function ran at %s", time.Duration(stop.TR), time.Duration(rs[0].T))
-				return
+			stopped := false
+			for _, stop := range stopsOf(o.ID) {
+				if stop.Bool {
+					stopped = true
+				}
+				if stop.Bool && len(rs) > 0 {
+					fail("ran-after-stop", "Stop on the timer of delay #%d returned true at %s but its function ran at %s", o.ID, time.Duration(stop.TR), time.Duration(rs[0].T))
+					return
+				}
+				// whatever Stop answered: a Stop that had returned at an instant strictly before the due
+				// instant came before the timer could fire ("not at all after cancel")
+				if stop.Inv > o.Ret && stop.TR < o.TI+w.WaitNs && len(rs) > 0 {
+					fail("ran-after-stop-before-due", "Stop on the timer of delay #%d returned (%v) at %s, before the due instant %s of the delay started at %s, yet its function ran at %s",
+						o.ID, stop.Bool, time.Duration(stop.TR), time.Duration(o.TI+w.WaitNs), time.Duration(o.TI), time.Duration(rs[0].T))
+					return
+				}
 			}
-			// whatever Stop answered: a Stop that had returned at an instant strictly before the due
-			// instant came before the timer could fire ("not at all after cancel")
-			if stop != nil && stop.Inv > o.Ret && stop.TR < o.TI+w.WaitNs && len(rs) > 0 {
-				fail("ran-after-stop-before-due", "Timer.Stop returned (%v) at %s, before the due instant %s of the delay started at %s, yet the delayed function ran at %s",
-					stop.Bool, time.Duration(stop.TR), time.Duration(o.TI+w.WaitNs), time.Duration(o.TI), time.Duration(rs[0].T))
-				return
-			}
-			if settled && len(rs) == 0 && (stop == nil || !stop.Bool) {
-				fail("never-ran", "the delayed function never ran although it was not stopped (Stop absent or returned false)")
+			if settled && len(rs) == 0 && !stopped {
+				fail("never-ran", "the function of delay #%d never ran although nobody stopped its timer (no Stop on it, or Stop returned false)", o.ID)
 				return
 			}
 		}
@@ -627,6 +649,22 @@ func genC20(r *simrt.Rand, tier string, idx uint64) Workload {
 		ops := []TOp{{Op: "delay", At: r.Int63n(3) * ms, ID: 1, LatNs: []int64{0, 0, 0, 2 * ms}[r.Intn(4)]}}
 		if r.Bool(0.7) {
 			ops = append(ops, TOp{Op: "stop", At: ops[0].At + gap()})
+		}
+		if r.Intn(3) == 0 {
+			// several Delays, pending together or one after the other, and Stops on any of the timers
+			// they returned - also on one whose function has long run
+			ops = ops[:1]
+			at := ops[0].At
+			for k := 2; k <= 2+r.Intn(2); k++ {
+				at += gap()
+				ops = append(ops, TOp{Op: "delay", At: at, ID: k})
+			}
+			nd := len(ops)
+			for k := 0; k < 1+r.Intn(3); k++ {
+				target := 1 + r.Intn(nd)
+				ops = append(ops, TOp{Op: "stop", ID: target, At: ops[target-1].At + gap() + int64(r.Intn(3))*w.WaitNs})
+			}
+			sort.SliceStable(ops, func(i, j int) bool { return ops[i].At < ops[j].At })
 		}
 		w.Tasks = [][]TOp{ops}
 	case "debounce":
